@@ -484,7 +484,7 @@ G.raw = a;
 LIN_INST_RAW(a, RAW_direction);
 //@ loop LocalLinearization_direction 1
 __CPROVER_assigns(a, G.j1)
-__CPROVER_loop_invariant(0 <= G.j1 && G.j1 <= 3 && a == SUBN(G.raw, G.j1) && (G.j1 > 0 ==> a > -200e4))
+__CPROVER_loop_invariant(0 <= G.j1 && G.j1 <= 3 && a == SUBN(G.raw, G.j1) && (G.j1 > 0 ==> a >= -200e4))
 __CPROVER_decreases(3 - G.j1)
 //@ tail LocalLinearization_direction 1
 G.j1++;
@@ -603,7 +603,7 @@ G.raw = a;
 LIN_INST_RAW(a, RAW_angle);
 //@ loop LocalLinearization_angle 1
 __CPROVER_assigns(a, G.j1)
-__CPROVER_loop_invariant(0 <= G.j1 && G.j1 <= 3 && a == SUBN(G.raw, G.j1) && (G.j1 > 0 ==> a > -200e4))
+__CPROVER_loop_invariant(0 <= G.j1 && G.j1 <= 3 && a == SUBN(G.raw, G.j1) && (G.j1 > 0 ==> a >= -200e4))
 __CPROVER_decreases(3 - G.j1)
 //@ tail LocalLinearization_angle 1
 G.j1++;
@@ -660,7 +660,7 @@ G.raw = a;
 LIN_INST_RAW(a, RAW_azimuth);
 //@ loop LocalLinearization_azimuth 1
 __CPROVER_assigns(a, G.j1)
-__CPROVER_loop_invariant(0 <= G.j1 && G.j1 <= 3 && a == SUBN(G.raw, G.j1) && (G.j1 > 0 ==> a > -200e4))
+__CPROVER_loop_invariant(0 <= G.j1 && G.j1 <= 3 && a == SUBN(G.raw, G.j1) && (G.j1 > 0 ==> a >= -200e4))
 __CPROVER_decreases(3 - G.j1)
 //@ tail LocalLinearization_azimuth 1
 G.j1++;
@@ -693,6 +693,28 @@ static void mk_state(void)
   P = p;
   gv_L.PD = &gv_pd;
   gv_ob.cluster = &gv_sp;
+#ifdef LIN_SAMPLE
+  /* checks <fn>_sample: ONE concrete point (all symbols are constants, so the SAT back end evaluates the value
+     obligations by constant propagation).  A cheap second line: a wrong sign / factor / argument that changes the
+     value at this point is reported even where cvc5 cannot decide the symbolic obligation in time. */
+  gv_pd.pts[0].x_ = 1;  gv_pd.pts[0].y_ = 2;  gv_pd.pts[0].z_ = 3;
+  gv_pd.pts[1].x_ = 4;  gv_pd.pts[1].y_ = 6;  gv_pd.pts[1].z_ = 15;
+  gv_pd.pts[2].x_ = -3; gv_pd.pts[2].y_ = 5;  gv_pd.pts[2].z_ = 1;
+  for (int i = 0; i < NPTS; i++) {
+    gv_pd.pts[i].pst_ = xy_adjusted_ | z_adjusted_;
+    gv_pd.pts[i].ix_ = gv_pd.pts[i].iy_ = gv_pd.pts[i].iz_ = 0;
+  }
+  gv_pd.local_coordinate_system = CS_EN;
+  gv_pd.left_handed_ = 1;
+  gv_L.maxn = 0;
+  gv_ob.from_ = 0; gv_ob.to_ = 1; gv_ob.fs_ = 2;
+  gv_ob.value_ = 1.25; gv_ob.reduction_dh_ = 0.125;
+  gv_sp.attr_or = 0.5; gv_sp.test_or = 1; gv_sp.indx_or = 0;
+  P.sqrt_ret[0] = 5; P.sqrt_ret[1] = 13;
+  P.atan2_ret[0] = 0.75; P.atan2_ret[1] = -2.5;
+  P.S[0] = 0.8; P.C[0] = 0.6; P.S[1] = -0.28; P.C[1] = 0.96;
+  P.acos_ret = 0.4;
+#endif
 }
 
 #define HARNESS(name)                                                                                      \
